@@ -7,6 +7,7 @@ import PotasscoVerif.Drv.RuleBuilder
 import PotasscoVerif.Drv.Aspif
 import PotasscoVerif.Drv.Smodels
 import PotasscoVerif.Drv.Signals
+import PotasscoVerif.Drv.StringBuilder
 open PotasscoVerif.Drv
 
 def dispatch (line : String) : String :=
@@ -20,6 +21,7 @@ def dispatch (line : String) : String :=
   | "sw" :: args => runSW args
   | "sr" :: args => runSR args
   | "sg" :: args => runSG args
+  | "sb" :: args => runSB args
   | _ => "bad-component"
 
 partial def loop (h : IO.FS.Stream) (out : IO.FS.Stream) : IO Unit := do
